@@ -440,6 +440,10 @@ func c04Reference(r c04Rule, q *rules.Request) bool {
 type c04Req struct {
 	q    *rules.Request
 	desc string
+	// ref, if set, is the request as a fresh constructor call builds it; q is
+	// then the same request reached by another route (a re-used object), and
+	// the reference is computed on ref
+	ref *rules.Request
 }
 
 func c04Requests() (qs []c04Req) {
@@ -449,7 +453,7 @@ func c04Requests() (qs []c04Req) {
 	for _, u := range urls {
 		for _, s := range srcs {
 			for _, t := range types {
-				qs = append(qs, c04Req{rules.NewRequest(u, s, t), fmt.Sprintf("url=%s src=%s type=%d", u, s, t)})
+				qs = append(qs, c04Req{q: rules.NewRequest(u, s, t), desc: fmt.Sprintf("url=%s src=%s type=%d", u, s, t)})
 			}
 		}
 	}
@@ -474,10 +478,27 @@ func c04Requests() (qs []c04Req) {
 							q.ClientIP = netip.MustParseAddr(ip)
 						}
 						q.SortedClientTags = ts
-						qs = append(qs, c04Req{q, fmt.Sprintf("hostname=%s dnstype=%d client=%q ip=%s tags=%v", h, dt, n, ip, ts)})
+						qs = append(qs, c04Req{q: q, desc: fmt.Sprintf("hostname=%s dnstype=%d client=%q ip=%s tags=%v", h, dt, n, ip, ts)})
 					}
 				}
 			}
+		}
+	}
+	// request objects that were used before (a pool hands them out): filled for a host name after a URL of
+	// the same host, of another host, and after another host name; the reference is the fresh hostname request
+	for _, h := range []string{"example.org", "ads.sub.example.org"} {
+		for _, before := range []string{"https://" + h + "/ads/banner.js?x=1", "http://other.example.net/p/ads", ""} {
+			var q *rules.Request
+			if before != "" {
+				q = rules.NewRequest(before, "http://example.com/", rules.TypeScript)
+			} else {
+				q = rules.NewRequestForHostname("sub.example.org")
+			}
+			rules.FillRequestForHostname(q, h)
+			ref := rules.NewRequestForHostname(h)
+			// what FillRequestForHostname documents as left to the caller
+			ref.SourceURL, ref.SourceHostname, ref.SourceDomain = q.SourceURL, q.SourceHostname, q.SourceDomain
+			qs = append(qs, c04Req{q: q, desc: fmt.Sprintf("hostname=%s on a request object used for %q before", h, before), ref: ref})
 		}
 	}
 	// host names made of hexadecimal digits and dots look like IP addresses to a cheap test
@@ -486,7 +507,7 @@ func c04Requests() (qs []c04Req) {
 		for _, dt := range []uint16{1, 28} {
 			q := rules.NewRequestForHostname(h)
 			q.DNSType = dt
-			qs = append(qs, c04Req{q, fmt.Sprintf("hostname=%s dnstype=%d", h, dt)})
+			qs = append(qs, c04Req{q: q, desc: fmt.Sprintf("hostname=%s dnstype=%d", h, dt)})
 		}
 	}
 	return qs
@@ -539,7 +560,11 @@ func c04CheckRule(c *Ctx, r c04Rule, qs []c04Req, sigKey string) (evals int64, p
 			c.Run.Violate(ev.Violation{Pred: "no-crash", Sig: map[string]any{"rule": text}, What: fmt.Sprintf("%q.Match(%s) panics: %v", text, q.desc, p), Replay: map[string]any{"rule": text}})
 			return evals, true
 		}
-		want := c04Reference(r, q.q)
+		refReq := q.q
+		if q.ref != nil {
+			refReq = q.ref
+		}
+		want := c04Reference(r, refReq)
 		if got != want {
 			c.Run.Violate(ev.Violation{Pred: "match-equals-reference", Sig: map[string]any{"rule": text, "request": q.desc},
 				What:   fmt.Sprintf("rule %q on request [%s]: Match = %v, reference = %v", text, q.desc, got, want),
@@ -729,7 +754,7 @@ func c04Run(c *Ctx, qs []c04Req, only string) {
 	var typeQs []c04Req
 	for _, t := range []rules.RequestType{rules.TypeDocument, rules.TypeSubdocument, rules.TypeScript, rules.TypeStylesheet, rules.TypeObject, rules.TypeImage, rules.TypeXmlhttprequest,
 		rules.TypeMedia, rules.TypeFont, rules.TypeWebsocket, rules.TypePing, rules.TypeOther} {
-		typeQs = append(typeQs, c04Req{rules.NewRequest("http://example.org/ads", "http://example.com/", t), fmt.Sprintf("url=http://example.org/ads src=http://example.com/ type=%d", t)})
+		typeQs = append(typeQs, c04Req{q: rules.NewRequest("http://example.org/ads", "http://example.com/", t), desc: fmt.Sprintf("url=http://example.org/ads src=http://example.com/ type=%d", t)})
 	}
 	for _, a := range c04TypeNames {
 		jobs = append(jobs, job{c04Rule{pattern: "||example.org^", types: []nv{{a, false}}}, "content-types"}, job{c04Rule{pattern: "||example.org^", types: []nv{{a, true}}}, "content-types"})
@@ -745,7 +770,7 @@ func c04Run(c *Ctx, qs []c04Req, only string) {
 	// of every type from a first- and a third-party referrer
 	for _, src := range []string{"http://example.org/", "http://sub.example.org/p"} {
 		for _, t := range []rules.RequestType{rules.TypeDocument, rules.TypeSubdocument, rules.TypeScript, rules.TypeImage, rules.TypeOther} {
-			typeQs = append(typeQs, c04Req{rules.NewRequest("http://example.org/ads", src, t), fmt.Sprintf("url=http://example.org/ads src=%s type=%d", src, t)})
+			typeQs = append(typeQs, c04Req{q: rules.NewRequest("http://example.org/ads", src, t), desc: fmt.Sprintf("url=http://example.org/ads src=%s type=%d", src, t)})
 		}
 	}
 	for p1 := 1; p1 <= 4; p1++ {
